@@ -1,24 +1,25 @@
 # C12 -- interval and interval-linear-form arithmetic encloses every concrete result
 import os as _os
 
-def _fpe_float_compiles():
-    """The Floating_Point_Expression class hierarchy can only be instantiated for a float analyser format once
-    proposed_fixes/C12-5.diff is applied (std::max(double, float) in compute_absolute_error)."""
+def _c12_5_applied():
+    """proposed_fixes/C12-5.diff (/repo commit bf1eeb3) makes the Floating_Point_Expression class hierarchy compile under
+    standard two-phase lookup and for a float analyser format.  Older trees need -fpermissive and cannot instantiate
+    the float format (std::max(double, float) in compute_absolute_error)."""
     repo = _os.environ.get("VERIF_REPO", "/repo")
     try:
-        s = open(_os.path.join(repo, "src", "Floating_Point_Expression_templates.hh")).read()
+        a = open(_os.path.join(repo, "src", "Floating_Point_Expression_templates.hh")).read()
+        b = open(_os.path.join(repo, "src", "Sum_Floating_Point_Expression_templates.hh")).read()
     except OSError:
         return False
-    return "std::pow" in s or bool(_os.environ.get("C12_FPE_FLOAT"))
+    return "std::pow" in a and "this->relative_error" in b
+
+_FPE_FLAGS = ["-DC12_FPE_FLOAT=1"] if _c12_5_applied() else ["-fpermissive"]
 
 HARNESSES = {
     "c12_interval": {"src": ["harness/c12_interval.cc"], "variant": "prod"},
     # stand-alone reproducers of the known findings (not part of the check)
-    "c12_repro": {"src": ["harness/c12_repro.cc"], "variant": "prod", "flags": ["-fpermissive"]},
-    # -fpermissive: src/{Sum,Difference,Multiplication,Division,Cast}_Floating_Point_Expression_templates.hh call the
-    # dependent base member relative_error() unqualified, which standard two-phase lookup rejects (see proposed_fixes/C12-5.diff)
-    "c12_linform": {"src": ["harness/c12_linform.cc"], "variant": "prod",
-                    "flags": ["-fpermissive"] + (["-DC12_FPE_FLOAT=1"] if _fpe_float_compiles() else [])},
+    "c12_repro": {"src": ["harness/c12_repro.cc"], "variant": "prod", "flags": [] if _c12_5_applied() else ["-fpermissive"]},
+    "c12_linform": {"src": ["harness/c12_linform.cc"], "variant": "prod", "flags": _FPE_FLAGS},
 }
 
 def _runs(tier):
